@@ -73,20 +73,83 @@ pub fn out_from_json(v: &Value) -> Vec<OutTok> {
         .unwrap_or_default()
 }
 
-/// Text of one model token.  `BSx` is a backslash-quoted `x`, `LC` a line
-/// continuation; every other token is its own text.
+/// Spelling of the model's names and words in the text given to the real
+/// parser / shell.  The specification's rules do not depend on how a name is
+/// spelled (beyond its being an unquoted literal word), so every case is
+/// replayed under several spellings:
+///   0  the model's own ASCII tokens
+///   1  alias names outside the portable alias-name set (`.`, `+`, `-`, `,`,
+///      `%`, `@`, non-ASCII letters), words with multi-byte characters
+///   2  other such names (`..`, a non-ASCII single letter, a trailing `.`),
+///      multi-byte characters at the start of words
+/// (yash accepts any literal word as an alias name unless `portable` is on.)
+pub static SPELL: std::sync::atomic::AtomicUsize = std::sync::atomic::AtomicUsize::new(0);
+pub const SPELLINGS: usize = 3;
+
+pub fn set_spell(k: usize) {
+    SPELL.store(k % SPELLINGS, std::sync::atomic::Ordering::Relaxed);
+}
+pub fn spell_now() -> usize {
+    SPELL.load(std::sync::atomic::Ordering::Relaxed)
+}
+
+const BASE: [&str; 9] = ["a", "b", "c", "d", "e", "x", "y", "f", "q"];
+const SPELL1: [&str; 9] = ["a.b", "c+d", "ñu", "d-e", "e,f%@", "xé", "ÿ", "fö", "qü"];
+const SPELL2: [&str; 9] = ["ä", "b.", "..", "日本", "e+", "éx", "y¡", "öf", "üq"];
+
+fn spell(w: &str) -> String {
+    let k = spell_now();
+    if k != 0 {
+        if let Some(i) = BASE.iter().position(|b| *b == w) {
+            return (if k == 1 { SPELL1[i] } else { SPELL2[i] }).to_string();
+        }
+    }
+    w.to_string()
+}
+
+fn unspell(w: &str) -> String {
+    let k = spell_now();
+    if k != 0 {
+        let tab = if k == 1 { &SPELL1 } else { &SPELL2 };
+        if let Some(i) = tab.iter().position(|b| *b == w) {
+            return BASE[i].to_string();
+        }
+    }
+    w.to_string()
+}
+
+/// Text of one model token.  `BSx` is a backslash-quoted `x`, `'x'` a
+/// single-quoted `x`, `v=x` an assignment word, `LC` a line continuation;
+/// every other token is its own text (under the current spelling).
 pub fn render_tok(t: &str) -> String {
     if t == "LC" {
         "\\\n".to_string()
     } else if let Some(r) = t.strip_prefix("BS") {
-        format!("\\{r}")
+        format!("\\{}", spell(r))
+    } else if let Some(r) = t.strip_prefix('\'').and_then(|r| r.strip_suffix('\'')) {
+        format!("'{}'", spell(r))
+    } else if let Some(r) = t.strip_prefix("v=") {
+        format!("v={}", spell(r))
     } else {
-        t.to_string()
+        spell(t)
     }
 }
 
 pub fn unrender_tok(s: &str) -> String {
-    if let Some(r) = s.strip_prefix('\\') { format!("BS{r}") } else { s.to_string() }
+    if let Some(r) = s.strip_prefix('\\') {
+        format!("BS{}", unspell(r))
+    } else if let Some(r) = s.strip_prefix('\'').and_then(|r| r.strip_suffix('\'')) {
+        format!("'{}'", unspell(r))
+    } else if let Some(r) = s.strip_prefix("v=") {
+        format!("v={}", unspell(r))
+    } else {
+        unspell(s)
+    }
+}
+
+/// Name of an alias as given to the Glossary / the alias built-in.
+pub fn render_name(n: &str) -> String {
+    spell(n)
 }
 
 /// Tokens are separated by single blanks (so no token is ever completed by
